@@ -1,15 +1,20 @@
 #!/bin/bash
 # Build the Coq development from scratch (full .vo build) and run the hygiene grep.
-set -e
+# A proof file that does not compile does not fail the setup: the checks whose cone
+# contains it report the broken proof themselves (VIOLATION ... no-failing-input-found).
 cd "$(dirname "$0")"
 mkdir -p build evidence replays
 cd coq
 { echo "-Q . CubedV"; ls Model/*.v Proofs/*.v Props/*.v 2>/dev/null; } > _CoqProject
-coq_makefile -f _CoqProject -o Makefile > /dev/null
-timeout 3000 make -j16 2>&1 | tail -n 40
-test "${PIPESTATUS[0]}" = 0
+coq_makefile -f _CoqProject -o Makefile > /dev/null || exit 1
+timeout 3000 make -k -j16 > ../build/setup_make.log 2>&1
+tail -n 5 ../build/setup_make.log
+missing=0
+for f in Model/*.v; do [ -f "${f%.v}.vo" ] || { echo "MODEL NOT COMPILED: $f"; missing=1; }; done
+for f in Proofs/*.v Props/*.v; do [ -f "${f%.v}.vo" ] || echo "proof file not compiled (its checks will report it): $f"; done
 cd ..
 if grep -rnE '\b(Admitted|admit|Axiom|Parameter|Conjecture|Admit Obligations)\b|Unset Guard|bypass_check|type-in-type|impredicative-set|Unset Positivity|Unset Universe' coq --include='*.v' ; then
   echo "HYGIENE FAILURE" ; exit 1
 fi
+[ "$missing" = 0 ] || exit 1
 echo "setup ok"
